@@ -33,6 +33,10 @@ def handle : Handler := fun j => do
       let (nphn, ncor, nins, ndel, nsub) := Lev.editStats al
       return ok (jNats [nphn, ncor, nins, ndel, nsub])
     | none => return err "index-error"
+  | "alignsub" =>
+    match Lev.alignmentSub (← costs j) s t with
+    | some al => return ok (jList jPair al)
+    | none => return err "index-error"
   | "distsub" => return ok (jNat (Lev.distSub (← costs j) s t))
   | "summary" =>
     -- ErrorsSummary.from_lists(ref = s, hyp = t)
